@@ -65,10 +65,12 @@ def run(ctx, rep):
                                 (("agg", "parse::ParsingTable", "ParsingTable", (F_(me, "endian"), F_(me, "class"), F_(me, "bloom"), ("agg", "marker::PhantomData", "PhantomData", ()))),
                                  ("Rem", ("Div", hv, C(W)), F_(hdr, "nbloom")))), "Ok")
             bit = lambda x: ("Eq",) + tuple(sorted((("BitAnd",) + tuple(sorted((word, ("Shl", C(1), ("Rem", x, C(W)))), key=repr)), C(0)), key=repr))
+            # the same bit number written with a mask: W is a power of two, so x % W = x & (W - 1) for the unsigned hash
+            bitm = lambda x: ("Eq",) + tuple(sorted((("BitAnd",) + tuple(sorted((word, ("Shl", C(1), ("BitAnd",) + tuple(sorted((x, C(W - 1)), key=repr)))), key=repr)), C(0)), key=repr))
             h2 = ("payload", ("call", "u32::checked_shr", (hv, F_(hdr, "nshift"))), "Some")
-            rep.require(("false", bit(hv)) in fs, "linkage", "bloom:bit1" + kk, w, "first bloom bit = hash %% %d of bloom[(hash / %d) %% nbloom]" % (W, W),
+            rep.require(("false", bit(hv)) in fs or ("false", bitm(hv)) in fs, "linkage", "bloom:bit1" + kk, w, "first bloom bit = hash %% %d of bloom[(hash / %d) %% nbloom]" % (W, W),
                         "%s: the successful path does not test bit (hash %% %d) of the bloom word bloom[(hash / %d) %% nbloom]" % (cname, W, W))
-            rep.require(("false", bit(h2)) in fs, "linkage", "bloom:bit2" + kk, w, "second bloom bit = (hash >> nshift) %% %d on the same word" % W,
+            rep.require(("false", bit(h2)) in fs or ("false", bitm(h2)) in fs, "linkage", "bloom:bit2" + kk, w, "second bloom bit = (hash >> nshift) %% %d on the same word" % W,
                         "%s: the successful path does not test bit ((hash >> nshift) %% %d) of the same bloom word" % (cname, W))
             # the word is read from a table of class-sized words
             tys = set()
@@ -122,7 +124,7 @@ def run(ctx, rep):
             rep.require(okm, "linkage", "chain:match" + kk, w, "hash | 1 == chain[i] | 1", "the successful path does not compare the hash with the chain entry ignoring bit 0")
             # answers given before the walk: only for the reasons for which a well-formed table cannot contain the name
             zero = lambda x: ("Eq",) + tuple(sorted((x, C(0)), key=repr))
-            early_atoms = {zero(nb), ("Lt", nb[1], nb[2]), zero(F_(hdr, "nbloom")), bit(hv), bit(h2), ("Lt", bucket, so),
+            early_atoms = {zero(nb), ("Lt", nb[1], nb[2]), zero(F_(hdr, "nbloom")), bit(hv), bit(h2), bitm(hv), bitm(h2), ("Lt", bucket, so),
                            ("Le", nchain, ("-", bucket, so))}          # the chain range (bucket - symoffset)..nchain is empty
 
             def early_ok(d, val, _atoms=early_atoms):
